@@ -1,0 +1,130 @@
+//! Verification hook H2 (compiled only under `--cfg vls_verif`): a lock-event tap.
+//!
+//! `Mutex` wraps `shuttle::sync::Mutex` and records, for every lock of this crate, the events
+//! *want* (about to block or acquire), *acquired* and *released* together with the address of the
+//! mutex and the name of the current (shuttle) thread.  The verification harness maps addresses to
+//! lock classes (node state, channel map, channel slot, tracker, monitor, ...) and uses the log to
+//! validate the generated lock table and to name the cycle when shuttle reports a deadlock.
+use core::fmt;
+use core::ops::{Deref, DerefMut};
+use std::sync::atomic::{AtomicBool, Ordering};
+use std::sync::LockResult;
+
+/// kind of a lock event
+#[derive(Clone, Copy, Debug, PartialEq, Eq)]
+pub enum LockEventKind {
+    /// the thread is about to acquire (and may block on) the mutex
+    Want,
+    /// the thread holds the mutex now
+    Acquired,
+    /// the guard was dropped
+    Released,
+    /// a marker written by the harness (`tap_mark`); `addr` carries its code
+    Mark,
+}
+
+/// one entry of the lock-event log
+#[derive(Clone, Debug)]
+pub struct LockEvent {
+    /// name of the shuttle thread ("" if unnamed)
+    pub thread: String,
+    /// address of the mutex
+    pub addr: usize,
+    /// what happened
+    pub kind: LockEventKind,
+}
+
+static ENABLED: AtomicBool = AtomicBool::new(false);
+static LOG: std::sync::Mutex<Vec<LockEvent>> = std::sync::Mutex::new(Vec::new());
+
+/// start (clearing the log) or stop recording
+pub fn tap_enable(on: bool) {
+    if on {
+        LOG.lock().unwrap_or_else(|e| e.into_inner()).clear();
+    }
+    ENABLED.store(on, Ordering::SeqCst);
+}
+
+/// take the recorded events
+pub fn tap_take() -> Vec<LockEvent> {
+    core::mem::take(&mut *LOG.lock().unwrap_or_else(|e| e.into_inner()))
+}
+
+/// write a marker into the log (used by the harness to mark the end of a thread's requests)
+pub fn tap_mark(code: usize) {
+    record(code, LockEventKind::Mark);
+}
+
+fn record(addr: usize, kind: LockEventKind) {
+    if ENABLED.load(Ordering::SeqCst) {
+        let thread = shuttle::thread::current().name().unwrap_or("").to_string();
+        LOG.lock().unwrap_or_else(|e| e.into_inner()).push(LockEvent { thread, addr, kind });
+    }
+}
+
+/// `shuttle::sync::Mutex` with the event tap
+pub struct Mutex<T: ?Sized> {
+    inner: shuttle::sync::Mutex<T>,
+}
+
+/// guard of [`Mutex`]
+pub struct MutexGuard<'a, T: ?Sized> {
+    inner: shuttle::sync::MutexGuard<'a, T>,
+    addr: usize,
+}
+
+impl<T> Mutex<T> {
+    /// new unlocked mutex
+    pub fn new(value: T) -> Self {
+        Mutex { inner: shuttle::sync::Mutex::new(value) }
+    }
+}
+
+impl<T: ?Sized> Mutex<T> {
+    /// address used in the event log
+    pub fn tap_addr(&self) -> usize {
+        self as *const Self as *const u8 as usize
+    }
+
+    /// acquire, blocking the current shuttle thread
+    pub fn lock(&self) -> LockResult<MutexGuard<'_, T>> {
+        let addr = self.tap_addr();
+        record(addr, LockEventKind::Want);
+        let inner = self.inner.lock().unwrap();
+        record(addr, LockEventKind::Acquired);
+        Ok(MutexGuard { inner, addr })
+    }
+}
+
+impl<T: ?Sized + fmt::Debug> fmt::Debug for Mutex<T> {
+    fn fmt(&self, f: &mut fmt::Formatter<'_>) -> fmt::Result {
+        f.write_str("Mutex")
+    }
+}
+
+impl<T: ?Sized + fmt::Debug> fmt::Debug for MutexGuard<'_, T> {
+    fn fmt(&self, f: &mut fmt::Formatter<'_>) -> fmt::Result {
+        fmt::Debug::fmt(&**self, f)
+    }
+}
+
+impl<T: ?Sized> Deref for MutexGuard<'_, T> {
+    type Target = T;
+    fn deref(&self) -> &T {
+        &*self.inner
+    }
+}
+
+impl<T: ?Sized> DerefMut for MutexGuard<'_, T> {
+    fn deref_mut(&mut self) -> &mut T {
+        &mut *self.inner
+    }
+}
+
+impl<T: ?Sized> Drop for MutexGuard<'_, T> {
+    fn drop(&mut self) {
+        // recorded before the inner guard is released (fields drop after this body), so a
+        // `Released` entry always precedes the next `Acquired` entry of the same mutex
+        record(self.addr, LockEventKind::Released);
+    }
+}
